@@ -12,8 +12,8 @@
 * reports: HTML, LaTeX, F12 and the printed form contain, for every estimated parameter, a line with its name and
   its (symbolic) value, also for names sharing their first ten characters.
 
-Not decided here (see DESIGN.md): the TOML round trip of parameter files (tomlkit parser and float formatting are
-outside what the proxies can execute).
+* parameter files: document-level round trip of every parameter (tomlkit replaced by a document model that keeps the
+  values; its text formatting / parsing is outside what the proxies can execute and is not claimed).
 """
 from __future__ import annotations
 
@@ -38,7 +38,7 @@ from ..symx import lift, RV, SymReal, SymBool, explore, Inconclusive
 from . import c08
 
 PID = 'C14'
-EXTS = ('html', 'tex', 'F12', 'pickle', 'dat', 'csv', 'out', 'bak')
+EXTS = ('html', 'tex', 'F12', 'pickle', 'dat', 'csv', 'out', 'bak', 'toml')
 
 
 class OpaqueInt(int):
@@ -490,6 +490,165 @@ def scenario_roundtrip(c, names, concrete=False, sv=None):
     return eqs
 
 
+class SymIntI(int):
+    """python int whose value is a solver variable (passes isinstance(x, numbers.Integral))"""
+
+    def __new__(cls, t):
+        o = int.__new__(cls, 0)
+        o.t = t
+        return o
+
+    def _c(self, o):
+        return o.t if isinstance(o, SymIntI) else z3.IntVal(int(o))
+
+    def __lt__(self, o): return SymBool(self.t < self._c(o))
+    def __le__(self, o): return SymBool(self.t <= self._c(o))
+    def __gt__(self, o): return SymBool(self.t > self._c(o))
+    def __ge__(self, o): return SymBool(self.t >= self._c(o))
+    def __eq__(self, o): return SymBool(self.t == self._c(o)) if isinstance(o, (int, SymIntI)) and not isinstance(o, bool) else False
+    def __ne__(self, o): return not self.__eq__(o)
+    __hash__ = None
+
+    def __repr__(self):
+        return f'<int {self.t}>'
+
+    __str__ = __repr__
+
+    def __format__(self, spec):
+        return repr(self)
+
+    def __deepcopy__(self, memo):
+        return self
+
+
+class TomlModel:
+    """what the library uses of tomlkit, as a document model that keeps the values it is given (TOML stores strings,
+    integers, floats; the library codes booleans as strings): parse(dumps(doc)) is a copy of doc"""
+
+    class Box:
+        def __init__(self, value):
+            self.value = value
+            self.comments = []
+
+        def comment(self, text):
+            self.comments.append(text)
+
+    class Table:
+        def __init__(self):
+            self.d = {}
+
+        def add(self, name, value):
+            if value is None or isinstance(value, bool):
+                raise TypeError(f'TOML table: a {type(value).__name__} value is not stored by the model (the library codes '
+                                f'booleans as strings)')
+            self.d[name] = TomlModel.Box(value)
+
+        def __getitem__(self, name):
+            return self.d[name]
+
+        def items(self):
+            return [(k, v.value) for k, v in self.d.items()]
+
+    class Doc:
+        def __init__(self):
+            self.d = {}
+            self.comments = []
+
+        def add(self, c):
+            self.comments.append(c)
+
+        def __setitem__(self, k, v):
+            self.d[k] = v
+
+        def __getitem__(self, k):
+            return self.d[k]
+
+        def items(self):
+            return list(self.d.items())
+
+    def __init__(self):
+        self.store = {}
+
+    def document(self):
+        return TomlModel.Doc()
+
+    def table(self):
+        return TomlModel.Table()
+
+    def comment(self, text):
+        return ('comment', text)
+
+    def dumps(self, doc):
+        key = f'TOMLDOC#{len(self.store)}'
+        self.store[key] = copy.deepcopy(doc)
+        return key
+
+    def parse(self, text):
+        return copy.deepcopy(self.store[text.strip()])
+
+    TOMLDocument = Doc
+
+
+def scenario_toml(c, decide, concrete=None):
+    """every parameter gets an admissible value (numbers symbolic), the set is dumped and read back into a fresh object"""
+    import biogeme.parameters as bp
+    import biogeme.optimization as opt
+    eqs = []
+    symbolic = concrete is None
+    fs = SymFS([], set() if not symbolic else None)
+    p1 = bp.Parameters()
+    given = {}
+    algos = ['automatic'] + list(opt.algorithms.keys())
+    # booleans: all true, all false, alternating, alternating the other way (every parameter sees both values)
+    pattern = decide('boolean pattern', 4) if symbolic else 0
+    nbool = [0]
+    with patched_fs(fs), shims.patched(*([(bp, 'tk', TomlModel())] if symbolic else [])):
+        for key, tup in list(p1.all_parameters_dict.items()):
+            checks = [f.__name__ for f in (tup.check or ())]
+            nm = f'{key.section}.{key.name}'
+            if tup.type is bool:
+                nbool[0] += 1
+                v = [True, False, nbool[0] % 2 == 0, nbool[0] % 2 == 1][pattern] if symbolic else bool(concrete.get(nm, not tup.value))
+            elif tup.type is int:
+                if symbolic:
+                    v = SymIntI(z3.Int(nm))
+                    lo = 1 if 'is_positive' in checks else (0 if 'is_non_negative' in checks else None)
+                    if lo is not None:
+                        c.assume(v.t >= lo)
+                else:
+                    v = int(concrete.get(nm, tup.value + 3))
+            elif tup.type is float:
+                if symbolic:
+                    v = symx.SymRealF(z3.Real(nm))
+                    if 'is_positive' in checks:
+                        c.assume(v.t > 0)
+                    if 'zero_one' in checks:
+                        c.assume(z3.And(v.t >= 0, v.t <= 1))
+                else:
+                    v = float(concrete.get(nm, 0.625 if 'zero_one' in checks else float(tup.value) * 1.5 + 0.125))
+            elif key.name == 'optimization_algorithm':
+                v = algos[decide('algorithm', len(algos))] if symbolic else str(concrete.get(nm, algos[-1]))
+            else:
+                v = tup.value
+            p1.set_value(name=key.name, value=v, section=key.section)
+            given[key] = v
+        p1.dump_file('c14_params.toml')
+        eqs.append(('parameter file: dump creates the requested file', sorted(fs.created), ['c14_params.toml']))
+        p2 = bp.Parameters()
+        p2.read_file('c14_params.toml')
+        eqs.append(('parameter file: reading does not write', sorted(fs.created), ['c14_params.toml']))
+        for key, v in given.items():
+            got = p2.get_value(name=key.name, section=key.section)
+            label = f'parameter file: a {p1.all_parameters_dict[key].type.__name__} parameter has the same value after dump and read'
+            if isinstance(v, SymIntI) or isinstance(got, SymIntI):
+                eqs.append((label, (got.t == v.t) if isinstance(got, SymIntI) and isinstance(v, SymIntI) else z3.BoolVal(False), True))
+            elif symx.is_sym(v) or symx.is_sym(got):
+                eqs.append((label, got, v))
+            else:
+                eqs.append((label, (type(got).__name__, got), (type(v).__name__, v)))
+    return eqs
+
+
 NAMESETS = {
     'plain': ('beta_b', 'alpha_a'),
     'same-first-ten-characters': ('beta_time_car', 'beta_time_train'),
@@ -546,13 +705,17 @@ def items_for(tier):
         for model in ('logit', 'mnl.v2'):
             items.append(('history', kind, model))
     items.append(('roundtrip', 'plain', None))
+    items.append(('toml', None, None))
     for ns in NAMESETS:
         if tier == 'thorough' or len(NAMESETS[ns]) < 3:
             items.append(('reports', ns, None))
     return items
 
 
-def run_scenario(c, item, concrete=None, sv=None):
+DECIDE = [None]
+
+
+def run_scenario(c, item, concrete=None, sv=None, sv_values=None):
     kind, a, b = item
     if kind == 'fresh':
         return scenario_fresh(c, a, b, concrete)
@@ -562,6 +725,8 @@ def run_scenario(c, item, concrete=None, sv=None):
         return scenario_history(c, a, b, concrete, sv)
     if kind == 'roundtrip':
         return scenario_roundtrip(c, NAMESETS[a], concrete is not None, sv)
+    if kind == 'toml':
+        return scenario_toml(c, DECIDE[0], None if concrete is None else dict(sv_values or {}))
     return scenario_reports(c, a, concrete is not None, sv)
 
 
@@ -572,6 +737,7 @@ def worker(item):
         symx.reset_tokens()
         c.branch_lemmas = True
         c.int_fallback = OpaqueInt
+        DECIDE[0] = lambda nm, n: c.choose(nm.replace(' ', '_'), n)
         try:
             eqs = run_scenario(c, tuple(item))
         except (symx.PathAbort, Inconclusive):
@@ -625,7 +791,12 @@ def worker(item):
                         values = {k: v for k, v in symx.model_to_assignment(model).items() if not k.startswith(('choice!', 'exists['))}
                     elif model is not None:
                         values = dict(model.asg)
-                    case = dict(item=list(item), label=label, existing=existing, values=values)
+                    ints = {}
+                    if model is not None and not hasattr(model, 'asg'):
+                        for d in model.decls():
+                            if d.arity() == 0 and d.range() == z3.IntSort() and not d.name().startswith('choice!'):
+                                ints[d.name()] = model[d].as_long()
+                    case = dict(item=list(item), label=label, existing=existing, values=values, ints=ints)
                     done[key] = (replay_subprocess(case), case)
                 rp, case = done[key]
                 res_.add(label, 'cex', key='/'.join(str(x) for x in item) + '/' + key, case=case,
@@ -666,7 +837,10 @@ def concrete_run(case):
     bad = []
     for stt in states:
         try:
-            eqs = run_scenario(None, item, concrete=stt, sv=concrete_sv(case.get('values')))
+            DECIDE[0] = lambda nm, n: 0
+            vals = dict(case.get('values') or {})
+            vals.update(case.get('ints') or {})
+            eqs = run_scenario(None, item, concrete=stt, sv=concrete_sv(case.get('values')), sv_values=vals)
         except Exception as e:  # noqa: BLE001
             import traceback
             bad.append(f'{type(e).__name__}: {str(e)[:200]} {traceback.format_exc()[-300:]}')
@@ -695,11 +869,12 @@ def main(tier):
         functions_encoded=['filenames.get_new_file_name', 'tools.files.create_backup', 'results.bioResults.write_html / write_latex / '
                            'write_f12 / write_pickle / __init__(pickle_file) / get_html / get_latex / get_f12 / __str__ / short_summary',
                            'database.Database.dump_on_file / generate_flat_panel_dataframe(save_on_file)', 'biogeme.BIOGEME.files_of_type / '
-                           'estimate(recycle=True)'],
+                           'estimate(recycle=True)', 'parameters.Parameters.set_value / get_value / generate_document / import_document / '
+                           'dump_file / read_file / parse_boolean, check_parameters.*'],
         bounds=dict(directory='existence of the plain name, the first three numbered names and two files of a model with a longer '
                               'name is symbolic (all 2^6 occupancies); other names absent', generations=3,
                     names=['logit', 'mnl.v2', 'a b'], parameters=list(NAMESETS.values()),
-                    outside='TOML parameter-file round trip (tomlkit parsing / float text); more than 100 generations (numbering '
+                    outside='text level of the TOML round trip (tomlkit formatting / parsing); more than 100 generations (numbering '
                             'beyond ~99 sorts differently for recycling); byte-level pickle format (object store instead)'),
         stubs=['file system -> symbolic directory (builtins.open for bare names, Path.is_file, glob, os.rename, shutil.copy, '
                'DataFrame.to_csv)', 'pickle -> object store with deep copies', 'numpy/scipy contracts of C08 around bioResults'],
